@@ -10,6 +10,7 @@ def configs(tier):
         ('4 ops over new/add/opt/dupadd (re-adding a positioned clone)', dict(length=4, ops=('new', 'add', 'opt', 'dupadd'))),
         ('5 ops over new/add/rm/readd/opt', dict(length=5, ops=('new', 'add', 'rm', 'readd', 'opt'), render=False)),
         ('3 merge_attr calls (attribute lists of one or two attributes, any names, tags and order)', dict(length=3, ops=('merge',))),
+        ('4 ops over addnew/rm/opt (create+add in one step: reaches position ties after a removal)', dict(length=4, ops=('addnew', 'rm', 'opt'))),
         ('5 ops over new/nest/add/opt/rm (subtree preserved)', dict(length=5, ops=('new', 'nest', 'add', 'opt', 'rm'), render=False)),
     ]
     if tier == 'quick': return q
@@ -23,7 +24,7 @@ def configs(tier):
 def main():
     c = Check('C16')
     c.assumptions = [
-        'operations: create (Element::new, optionally with one attribute), add_unique_child, set_child_optional, remove_child, get_child(_mut), re-adding a removed child, adding a clone of an existing child, merge_attr (one attribute, symbolic tag), set_multiple, text = Some(..), nested add (child gets a grandchild before being added)',
+        'operations: create (Element::new, optionally with one attribute), add_unique_child (also create+add in one step), set_child_optional, remove_child, get_child(_mut), re-adding a removed child, adding a clone of an existing child, merge_attr (one attribute, symbolic tag), set_multiple, text = Some(..), nested add (child gets a grandchild before being added)',
         'names from {a, b, c} (the operations only compare names): every equality pattern of <= length names is covered',
         'one parent with a staged child and grandchildren (two levels); deeper trees are the same operations applied one level down',
         'rendering with the quick-xml preset; identifier legality for adversarial names is C04',
